@@ -30,6 +30,21 @@ macro_rules! not_forms {
     };
 }
 
+/// answer of the `*_scan` requests: `-` when no index failed, else `bad:` + the first 8 failing indices
+fn show_bad(bad: &[u32]) -> String {
+    if bad.is_empty() { "-".into() } else { format!("bad:{}", bad.iter().take(8).map(|i| i.to_string()).collect::<Vec<_>>().join(",")) }
+}
+
+/// `bit_scan`: every `bit(i)`, `i < BITS`, reassembled into the pattern (bytes built here, not by the crate)
+macro_rules! bit_scan {
+    ($x:expr, $bits:expr) => {{
+        let x = $x;
+        let mut bytes = vec![0u8; ($bits as usize) / 8];
+        for i in 0..$bits { if x.bit(i) { bytes[(i / 8) as usize] |= 1 << (i % 8); } }
+        le_bytes_to_hex(&bytes)
+    }};
+}
+
 macro_rules! imp {
     ($U:ident, $I:ident, $D:ty, $N:literal) => {{
         type UT = bnum::$U<$N>;
@@ -38,7 +53,38 @@ macro_rules! imp {
             let u = |i: usize| UT::from_hex(a[i]);
             let s = |i: usize| IT::from_hex(a[i]);
             let k = |i: usize| parse_u32(a[i]);
+            const DW: u32 = <$D>::BITS;
             if !signed {
+                match op {
+                    "bit_scan" => return Some(bit_scan!(u(0), UT::BITS)),
+                    // every index: set_bit(i, v) must replace bit i of digit i / DW and leave every other digit alone
+                    "set_bit_scan" => {
+                        let (x, v) = (u(0), parse_bool(a[1]));
+                        let d0 = *x.digits();
+                        let mut bad = vec![];
+                        for i in 0..UT::BITS {
+                            let mut y = x;
+                            y.set_bit(i, v);
+                            let mut e = d0;
+                            let (j, t) = ((i / DW) as usize, i % DW);
+                            e[j] = if v { e[j] | ((1 as $D) << t) } else { e[j] & !((1 as $D) << t) };
+                            if *y.digits() != e { bad.push(i); }
+                        }
+                        return Some(show_bad(&bad));
+                    }
+                    // every exponent: power_of_two(k) must be the digit array of 2^k
+                    "power_of_two_scan" => {
+                        let mut bad = vec![];
+                        for i in 0..UT::BITS {
+                            let y = UT::power_of_two(i);
+                            let mut e = [0 as $D; $N];
+                            e[(i / DW) as usize] = (1 as $D) << (i % DW);
+                            if *y.digits() != e { bad.push(i); }
+                        }
+                        return Some(show_bad(&bad));
+                    }
+                    _ => {}
+                }
                 bit_forms!(op, u, (bitand, &, &=), (bitor, |, |=), (bitxor, ^, ^=));
                 not_forms!(op, u);
                 un_ops!(op, u, swap_bytes, reverse_bits, is_power_of_two, checked_next_power_of_two,
@@ -58,6 +104,7 @@ macro_rules! imp {
                 cnt!(op, s, count_ones, count_zeros, leading_zeros, trailing_zeros, leading_ones, trailing_ones, bits);
                 match op {
                     "bit" => return Some(s(0).bit(k(1)).out()),
+                    "bit_scan" => return Some(bit_scan!(s(0), IT::BITS)),
                     _ => {}
                 }
             }
